@@ -10,12 +10,12 @@ if not os.path.isdir(TESTS):
     TESTS = "/repo/tests"
 SMALL = ["1DFU_1_M-N.cif", "1HMH_1_E.cif", "6INQ.cif", "4WTI_1_T-P.cif", "1E7K_1_C.cif", "1A1T_1_B.cif", "1ATO.pdb", "6RS3.cif",
          "2HY9.cif", "1JJP.cif", "6FC9.cif", "488d.pdb", "q-ugg-5k-salt_400-500ns_frame1065.pdb"]
-MEDIUM = ["4gqj-assembly1.cif", "184D.cif", "8btk_B7.cif", "4qln.cif", "4qln.pdb"]
+MEDIUM = ["4qln.cif", "4gqj-assembly1.cif", "184D.cif", "8btk_B7.cif", "4qln.pdb"]
 LARGE = ["1ehz-assembly-1.cif", "6g90_1.cif", "1a9n.cif"]
 
 
 def corpus(tier):
-    names = SMALL + MEDIUM[:3] if tier == "quick" else SMALL + MEDIUM + LARGE
+    names = SMALL + MEDIUM[:4] if tier == "quick" else SMALL + MEDIUM + LARGE
     return [os.path.join(TESTS, n) for n in names if os.path.exists(os.path.join(TESTS, n))]
 
 
@@ -92,6 +92,29 @@ def reorder(structure, rng, mode):
     return Structure3D(res)
 
 
+def icode_twins(structure, rng):
+    """the same structure as a PDB-style one (no label identity) in which a few residues are renumbered to the number of
+    their predecessor plus an insertion code (N, N^A, N^B ...): identities then differ in the insertion code only"""
+    from rnapolis.common import ResidueAuth
+    n = len(structure.residues)
+    picks = set(rng.sample(range(1, n), min(n - 1, max(1, n // 6)))) if n > 1 else set()
+    state = {"k": -1, "prev": None, "code": 0}
+
+    def ident(label, auth):
+        state["k"] += 1
+        if auth is None:
+            return label, auth
+        if state["k"] in picks and state["prev"] is not None and state["prev"].chain == auth.chain:
+            state["code"] += 1
+            new = ResidueAuth(auth.chain, state["prev"].number, "ABCDEFGH"[(state["code"] - 1) % 8], auth.name)
+        else:
+            state["code"] = 0
+            new = ResidueAuth(auth.chain, auth.number, auth.icode, auth.name)
+            state["prev"] = new
+        return None, new
+    return rebuild(structure, ident_fn=ident)
+
+
 def variants(path, rng, tier):
     """(tag, Structure3D) for the file and a few seeded perturbations"""
     s = load(path)
@@ -104,6 +127,7 @@ def variants(path, rng, tier):
         out.append((f"{name}|rigid{k}", rigid(s, rng)))
         out.append((f"{name}|jitter{k}", jitter(s, rng, sigma=rng.choice([0.05, 0.15, 0.3]))))
         out.append((f"{name}|thin{k}", thin(s, rng)))
+    out.append((f"{name}|icode-twins", icode_twins(s, rng)))
     out.append((f"{name}|reversed", reorder(s, rng, "reversed")))
     out.append((f"{name}|rotated-chains", reorder(s, rng, "rotate")))
     return out
